@@ -4,3 +4,7 @@ Definition wtype_eqb (a b : wtype) : bool :=
   match a, b with WNormal, WNormal | WAny, WAny | WMod, WMod | WMss, WMss | WMtu, WMtu => true | _, _ => false end.
 Definition mtype_eqb (a b : mtype) : bool :=
   match a, b with Exact, Exact | FuzzyTTL, FuzzyTTL | FuzzyQuirks, FuzzyQuirks => true | _, _ => false end.
+(* sets of byte strings as lists: a <= b, a /\ b non-empty *)
+From PV Require Import Model.Text.
+Definition gen_subset (a b : list text) : bool := forallb (fun x => existsb (text_eqb x) b) a.
+Definition gen_meets (a b : list text) : bool := existsb (fun x => existsb (text_eqb x) b) a.
